@@ -320,6 +320,8 @@ class C09:
             bfl = P.blind_flows(S, suite, keys, [(1, 2, b""), (0, 0, None)])
             objs = []
             for sk, pk in keys: objs += [("pk", pk), ("sk", sk)]
+            # every encoder of a key: inherent to_bytes / encode (hex) and the same two through the scheme-generic traits
+            for sk, pk in keys: objs += [("pktrait", pk), ("pkenc", pk), ("pkinhenc", pk), ("sktrait", sk), ("skenc", sk), ("skinhenc", sk)]
             for f in flows: objs.append(("sig", f["sig"]))
             for p in proofs: objs.append(("proof", p["proof"]))
             for b in bfl: objs += [("commit", b["cwp"]), ("zkpok", b["cwp"][48:]), ("blind", b["blind"]), ("sig", b["sig"])]
@@ -560,6 +562,9 @@ class C10:
             for n in MSG_BOUND:
                 add("h2s %s %s %s" % (suite, tb(P.rb(rng, n)), tb(b"dst")), "h2s-msg-len")
             add("ms2s %s %s %s" % (suite, tl([P.rb(rng, n) for n in (0, 1, 32, 64, 200)]), tb(pyc.API[suite])), "ms2s")
+            for n in (255, 256, 65535, 65536, 66000, 131072):
+                add("m2s %s %s %s" % (suite, tb(P.rb(rng, n)), tb(pyc.API[suite])), "m2s-msg-len")
+            add("ms2s %s %s %s" % (suite, tl([P.rb(rng, n) for n in (65535, 65536, 3)]), tb(pyc.API[suite])), "ms2s-msg-len")
             add("sk2pk %s %s" % (suite, tb(pyc.sc(rng.randrange(1, pyc.R)))), "sk2pk")
             add("sk2pk %s %s" % (suite, tb(bytes(32))), "sk2pk-zero")
             # sign at message counts around every power of two up to 128 (a fast path switched on by the count would sit there) and at
@@ -595,6 +600,10 @@ class C10:
                 for _ in range(3):
                     q = bytearray(f["sig"]); q[rng.randrange(80)] ^= 1 << rng.randrange(8)
                     dl.append("verify %s %s %s %s %s" % (suite, tb(f["pk"]), tb(bytes(q)), tob(f["header"]), tl(f["msgs"])))
+                # A moved out of the prime-order subgroup by a point of order 3 (the pairing does not see the difference): octets_to_signature refuses it
+                for k_ in (1, 2):
+                    at = pyc.g1_plus_torsion(f["sig"][:48], k_)
+                    if at: dl += ["verify %s %s %s %s %s" % (suite, tb(f["pk"]), tb(at + f["sig"][48:]), tob(f["header"]), tl(f["msgs"])), "dec sig %s" % tb(at + f["sig"][48:])]
             nsh = 2 if tier == "quick" else 50
             base = None
             for k in range(nsh):
